@@ -5,9 +5,11 @@ from uuid import UUID
 
 import django
 from django.db.models import (
+    BooleanField,
     Case,
     Exists,
     F,
+    Func,
     Model,
     OuterRef,
     Q,
@@ -261,6 +263,13 @@ class AstToDjangoQVisitor(visitor.NodeVisitor):
             and django_cls in (lookups.Exact, NotEqual)
         ):
             lhs, rhs = rhs, lhs
+
+        if isinstance(rhs, lookups.Lookup):
+            # Both sides are comparisons. Django leaves a right-hand side whose
+            # SQL starts with a parenthesis as it is, e.g. `("i" + 1) = 2`:
+            rhs = Func(
+                rhs, template="(%(expressions)s)", output_field=BooleanField()
+            )
 
         return django_cls(lhs, rhs)
 
